@@ -227,6 +227,10 @@ def schemaCols (σ : Schema) (parts : List String) : List String :=
 structure Gen where
   colName : Nat → String
   refold : String → String
+  /-- Resolver._get_available_source_columns collects the FROM source and the joins up to the current one BY NAME, in
+      FROM/JOIN definition order (true; re-read from the source each run) — not a prefix of the cached all-sources
+      mapping, which lists plain tables first and derived tables last -/
+  joinCtxDefOrder : Bool := true
 
 def srcName (g : Gen) (s : Src) : Option String :=
   match s.alias with
@@ -677,17 +681,50 @@ def noBare : Expr → Bool
   | .paren e => noBare e
   | .coalesce _ => true
 
-/-- a join condition: only fully qualified ones are modelled; a condition generated by `_expand_using` is seen
-    by `_qualify_columns` only if some bare reference was replaced (which clears the scope's column cache) -/
-def qcolJoin (env : Env) (replaced : Bool) (jg : Join × Bool) : Except Err Join :=
+/-- `_qualify_columns` on a JOIN … ON condition: a bare name is resolved over ALL sources of the scope first
+    (`Resolver.get_table` → `_get_table_name_from_sources`) and, failing that, over the sources available at that join
+    (`_get_column_join_context` / `_get_available_source_columns`): `pre` = the FROM source and the joins up to and
+    including this one -/
+def qcolOn (env pre : Env) : Expr → Except Err Expr
+  | .col (some t) n => if colCheck env t n then .ok (.col (some t) n) else .error .optimize
+  | .col none n =>
+    match unique env n with
+    | some t => .ok (.col (some t) n)
+    | none =>
+      match unique pre n with
+      | some t => .ok (.col (some t) n)
+      | none => .ok (.col none n)
+  | .lit k => .ok (.lit k)
+  | .bin op l r => do
+    let l' ← qcolOn env pre l
+    let r' ← qcolOn env pre r
+    pure (.bin op l' r')
+  | .paren e => do
+    let e' ← qcolOn env pre e
+    pure (.paren e')
+  | .coalesce args => if args.all (fun a => colCheck env a.1 a.2) then .ok (.coalesce args) else .error .optimize
+
+/-- one join condition; a condition generated by `_expand_using` is seen by `_qualify_columns` only if some bare
+    reference was replaced (which clears the scope's column cache) -/
+def qcolJoin (env pre : Env) (replaced : Bool) (jg : Join × Bool) : Except Err Join :=
   match jg.1.on with
   | none => .ok jg.1
   | some e =>
     if jg.2 && !replaced then .ok jg.1
-    else if !noBare e then .error .unsupported
-    else do
+    else if noBare e then do
       let e' ← qcol env [] e
       pure { jg.1 with on := some e' }
+    else do
+      let e' ← qcolOn env pre e
+      pure { jg.1 with on := some e' }
+
+/-- the i-th join sees the first i + 2 entries of `jenv` (the mapping the join-context fallback slices) -/
+def qcolJoins (env jenv : Env) (replaced : Bool) : Nat → List (Join × Bool) → Except Err (List Join)
+  | _, [] => .ok []
+  | i, jg :: rest => do
+    let j ← qcolJoin env (jenv.take (i + 2)) replaced jg
+    let js ← qcolJoins env jenv replaced (i + 1) rest
+    pure (j :: js)
 
 /-! ### step D with merged columns -/
 
@@ -763,7 +800,7 @@ def applyStarsU (env : Env) (ct : ColTables) (ps : List Proj) : Except Err (List
 /-- steps B–F for one scope whose sources are aliased (`srcs'`) and resolved (`env`, in `references` order), after
     step U produced the merge table `ct` and the (join, ON-generated-here) pairs `jgs`; `replaced` = step U rewrote
     some bare reference -/
-def buildCore (g : Gen) (env : Env) (srcs' : List Src) (ct : ColTables) (jgs : List (Join × Bool)) (replaced : Bool)
+def buildCore (g : Gen) (env jenv : Env) (srcs' : List Src) (ct : ColTables) (jgs : List (Join × Bool)) (replaced : Bool)
     (skipOrder : List String) (s : Scope) : Except Err Scope := do
   -- B
   let projsB ← mapE (qcolProj env) s.projs
@@ -771,7 +808,7 @@ def buildCore (g : Gen) (env : Env) (srcs' : List Src) (ct : ColTables) (jgs : L
   let groupB ← mapE (qcol env []) s.group
   let havingB ← optE (qcolHaving env) s.having
   let orderB ← mapE (qcol env skipOrder) s.order
-  let joinsB ← mapE (qcolJoin env replaced) jgs
+  let joinsB ← qcolJoins env jenv replaced 0 jgs
   -- C
   let pc := expandProjs env [] 0 projsB
   let whrC := whrB.map (expand env pc.2 .plain .root)
@@ -790,7 +827,7 @@ def buildCore (g : Gen) (env : Env) (srcs' : List Src) (ct : ColTables) (jgs : L
          having := havingC, order := orderF' }
 
 /-- step U, then B–F -/
-def buildScope (g : Gen) (env : Env) (srcs' : List Src) (s : Scope) : Except Err Scope := do
+def buildScope (g : Gen) (env jenv : Env) (srcs' : List Src) (s : Scope) : Except Err Scope := do
   if s.joins.length + 1 != srcs'.length && !(s.joins.isEmpty) then .error .internal else do
   let u ← expandUsing env (srcs'.filterMap (·.alias)) s.joins
   let ct := u.2
@@ -798,8 +835,16 @@ def buildScope (g : Gen) (env : Env) (srcs' : List Src) (s : Scope) : Except Err
   let s1 : Scope := if ct.isEmpty then s else
     { s with projs := s.projs.map (replUsingProj ct), whr := s.whr.map (replUsing ct []),
              group := s.group.map (replUsing ct []), order := s.order.map (replUsing ct skipOrder) }
-  let replaced := !ct.isEmpty && (s1.projs != s.projs || s1.whr != s.whr || s1.group != s.group || s1.order != s.order)
-  buildCore g env srcs' ct u.1 replaced skipOrder s1
+  -- bare references to a merged column inside the ON conditions the user wrote are `Scope.columns` too
+  let jgs := if ct.isEmpty then u.1 else
+    u.1.map (fun jg => if jg.2 then jg else ({ jg.1 with on := jg.1.on.map (replUsing ct []) }, false))
+  let replaced := !ct.isEmpty && (s1.projs != s.projs || s1.whr != s.whr || s1.group != s.group || s1.order != s.order
+    || jgs != u.1)
+  buildCore g env jenv srcs' ct jgs replaced skipOrder s1
+
+/-- the mapping whose prefix the join-context fallback uses -/
+def joinEnv (g : Gen) (env0 : List (Bool × String × List String)) : Env :=
+  if g.joinCtxDefOrder then env0.map (·.2) else refOrder env0
 
 /-- step G -/
 def check (names : List String) (s' : Scope) : Except Err Scope :=
@@ -810,7 +855,7 @@ def qualifyScope (g : Gen) (σ : Schema) (outs : List (List String)) (s : Scope)
   | none => .error .unsupported
   | some (srcs', env0) =>
     if hasDup (envNames (refOrder env0)) then .error .optimize
-    else match buildScope g (refOrder env0) srcs' s with
+    else match buildScope g (refOrder env0) (joinEnv g env0) srcs' s with
       | .ok s' => check (envNames (refOrder env0)) s'
       | .error e => .error e
 
